@@ -70,10 +70,39 @@ def replay(ctx, cfg, path):
 
 # ------------------------------------------------------------------ C04 search
 def search_c04(ctx, broken):
-    """table edit -> look for (n, draws) on which the REAL iterator is not a permutation.
-    Runs the correspondence component with the thorough generator; its Spec verdicts are the search."""
-    return None  # the generic component run that follows performs the search (Spec on real outputs)
+    """table / algorithm edit -> look for (n, draws) on which the REAL iterator is not a permutation:
+    re-run the iter component in search mode (VERIF_SEARCH=1: complete iterations of every table row up to
+    2^28, counted with a bitmap); its Spec verdicts are the search."""
+    import check
+    check.run_component(ctx, "iter")
 
+
+def deep_iterstep(ctx, cf):
+    """an `iterstep` case on which Next differs from the model: run one COMPLETE turn of the real iterator
+    from that state (startI = I, limit = min(P-1, 2^32)) and count; a count != limit or a repeated value is
+    a concrete failing input for C04 (range size = limit, the draw that yields this G', that start)."""
+    import check
+    p, g, i = int(cf[1]), int(cf[2]), int(cf[3])
+    limit = min(p - 1, 1 << 32)
+    line = "\t".join(["iterfull", str(p), str(g), str(i), str(limit)])
+    cases = os.path.join(ctx.work, "deep.cases")
+    try:
+        q = subprocess.run([os.path.join(check.HARN, "bin", "sxdiff"), "replay", "-cases", cases], input=line + "\n",
+                           text=True, capture_output=True, env=dict(check.GOENV, GOMEMLIMIT="8GiB"), timeout=900)
+    except subprocess.TimeoutExpired:
+        ctx.notes.append("deep search from %s timed out" % line)
+        return None
+    if q.returncode != 0 or not os.path.exists(cases):
+        return None
+    obs = open(cases).read().rstrip("\n").split("\t")[-1]
+    if obs != "%d 1" % limit:
+        return {"failing_input": {"range_size_n": limit, "P": p, "randomised_generator": g, "start_element": i},
+                "expected": "%d values, all distinct, in 1..n" % limit, "observed": "count ok = " + obs,
+                "replay_line": line}
+    return None
+
+
+DEEP_SEARCH = {"iterstep": deep_iterstep}
 
 NOT_CLAIMED = {}
 
@@ -113,7 +142,8 @@ PROPS = {
     },
     "C01": {
         "modules": ["SxVerif.Props.C01"],
-        "components": ["gen"],
+        "components": ["gen", "iter", "e2e"],
+        "search": search_c04,
         "trusted_base": [
             "modelled, not verified: generators as the list they send before closing (channel plumbing is M-conc, C07/C08); cidranger as list membership; net.ParseIP / easyjson / bufio as a line classifier; os.Stdin through the buffering opener as a constant file",
             "chunk loop of startPortScanEngine tied by sxfacts (loop header, body statements and the empty-ranges branch are matched textually; any other shape is a translator problem that breaks Props/C01.translator_clean)",
@@ -125,7 +155,7 @@ PROPS = {
     },
     "C02": {
         "modules": ["SxVerif.Props.C02"],
-        "components": ["netparse", "gen"],
+        "components": ["netparse", "gen", "e2e"],
         "trusted_base": [
             "modelled, not verified: net.ParseCIDR / netip.ParseAddr for colon-free input (go1.23 parseIPv4Fields, dtoi) as Model/Net.lean; IPv6 parsing is not modelled at all (refused up front by the colon test)",
             "cidranger PCTrie as list membership after To4 normalisation",
